@@ -106,6 +106,15 @@ func effBucket(b int) uint64 {
 	return uint64((b + 127) / 128 * 128)
 }
 
+func isListedBucket(b int) bool {
+	for _, x := range bucketChoices {
+		if x == b {
+			return true
+		}
+	}
+	return false
+}
+
 type labelSet struct {
 	r    *h.Rec
 	seen map[string]bool
@@ -127,10 +136,13 @@ func checkStream(c streamCase, r *h.Rec) error {
 	}
 	B := effBucket(c.Bucket)
 	ls.add(kindNames[c.Kind])
-	if c.Bucket < 0 {
+	switch {
+	case c.Bucket < 0:
 		ls.add("bucket=none")
-	} else {
+	case isListedBucket(c.Bucket):
 		ls.add("bucket=%d", c.Bucket)
+	default:
+		ls.add("bucket=other(2..2100)")
 	}
 
 	// the reference keystream up to the furthest position any call touches
@@ -399,6 +411,9 @@ func genStream(kind int) func(*rapid.T) streamCase {
 			}
 		}
 		c.Bucket = rapid.SampledFrom(bucketChoices).Draw(t, "bucket")
+		if rapid.IntRange(0, 5).Draw(t, "otherBucket") == 0 {
+			c.Bucket = rapid.IntRange(2, 2100).Draw(t, "bucketAny")
+		}
 		c.Guard = rapid.Bool().Draw(t, "guard")
 		c.Seed = rapid.Uint64().Draw(t, "seed")
 		B := effBucket(c.Bucket)
@@ -423,15 +438,15 @@ func genStream(kind int) func(*rapid.T) streamCase {
 }
 
 func TestC11_Stream128(t *testing.T) {
-	h.Prop(t, h.P{Name: "stream-zuc128", Quick: 2500, Thorough: 60000, Journal: true}, genStream(kind128), checkStream)
+	h.Prop(t, h.P{Name: "stream-zuc128", Quick: 12000, Thorough: 300000, Journal: true}, genStream(kind128), checkStream)
 }
 
 func TestC11_Stream256(t *testing.T) {
-	h.Prop(t, h.P{Name: "stream-zuc256", Quick: 2500, Thorough: 60000, Journal: true}, genStream(kind256), checkStream)
+	h.Prop(t, h.P{Name: "stream-zuc256", Quick: 12000, Thorough: 300000, Journal: true}, genStream(kind256), checkStream)
 }
 
 func TestC11_StreamEEA(t *testing.T) {
-	h.Prop(t, h.P{Name: "stream-eea3", Quick: 2500, Thorough: 60000, Journal: true}, genStream(kindEEA), checkStream)
+	h.Prop(t, h.P{Name: "stream-eea3", Quick: 12000, Thorough: 300000, Journal: true}, genStream(kindEEA), checkStream)
 }
 
 // ---------------------------------------------------------------- enumerated short histories
